@@ -28,12 +28,21 @@ ActiveIns(n) ==
       [] n.kind \in {"sum2", "sumu", "keymix", "lsum", "lsumv"} -> {1, 2}
       [] OTHER                  -> {1}
 
+\* activity can change at run time: the node itself makes inputs passive / active again (make_passive / make_active from
+\* inside its evaluation); its state s records what it did last.  tog (two scalar inputs) / ltog (two list inputs of two
+\* elements each, read through list paths): the second input is passive while s = 1
+ActiveInsS(n, s) ==
+    CASE n.kind = "tog"  -> IF s = 1 THEN {1} ELSE {1, 2}
+      [] n.kind = "ltog" -> IF s = 1 THEN {1, 2} ELSE {1, 2, 3, 4}
+      [] OTHER           -> ActiveIns(n)
+
 \* indexes of the inputs that must hold a value for user code to run
 ValidIns(n) ==
     CASE n.kind \in SourceKinds -> {}
       [] n.kind \in {"sumu", "sampleu"} -> {1}
       [] n.kind = "elem0"       -> {1}
       [] n.kind = "elem1"       -> {2}
+      [] n.kind \in {"tog", "ltog"} -> {}    \* unchecked inputs
       [] n.kind = "lsumv"       -> {}        \* a list input is valid as soon as one element is
       [] n.kind \in {"sum2", "sample", "sample2", "psum2a", "keymix", "lsum"} -> {1, 2}
       [] n.kind = "sum3" -> {1, 2, 3}   \* lsum: all-valid list input
@@ -61,6 +70,13 @@ F(n, iv, iok, s) ==
       [] n.kind = "elem0"  -> [w |-> TRUE, v |-> iv[1], s |-> s]
       [] n.kind = "elem1"  -> [w |-> TRUE, v |-> iv[2], s |-> s]
       [] n.kind = "keymix" -> [w |-> TRUE, v |-> iv[1] * 100 + iv[2], s |-> s]   \* (key, x) inside a mapped child
+      \* tog / ltog: sum of the inputs that hold a value; afterwards the second input (pair) is made passive when the
+      \* first element is odd, active again when it is even
+      [] n.kind = "tog"    -> [w |-> TRUE, v |-> (IF iok[1] THEN iv[1] ELSE 0) + (IF iok[2] THEN iv[2] ELSE 0),
+                               s |-> IF iok[1] /\ iv[1] % 2 = 1 THEN 1 ELSE 0]
+      [] n.kind = "ltog"   -> [w |-> TRUE, v |-> (IF iok[1] THEN iv[1] ELSE 0) + (IF iok[2] THEN iv[2] ELSE 0)
+                                                  + (IF iok[3] THEN iv[3] ELSE 0) + (IF iok[4] THEN iv[4] ELSE 0),
+                               s |-> IF iok[1] /\ iv[1] % 2 = 1 THEN 1 ELSE 0]
       [] n.kind = "acc"    -> [w |-> TRUE, v |-> s + iv[1], s |-> s + iv[1]]
       [] n.kind = "count"  -> [w |-> TRUE, v |-> s + 1, s |-> s + 1]
       [] n.kind = "throwneg" -> IF iv[1] < 0 THEN [w |-> FALSE, v |-> 0, s |-> s]
